@@ -38,7 +38,7 @@ BUDGET = {
 
 @st.composite
 def cases(draw):
-    m = draw(models.model_specs(names=draw(st.sampled_from(["ident", "free"])), n_state=(1, 3), n_control=(0, 2), n_calib=(0, 1),
+    m = draw(models.model_specs(calib_types=models.CALIB_TYPES, names=draw(st.sampled_from(["ident", "free"])), n_state=(1, 3), n_control=(0, 2), n_calib=(0, 1),
                                 n_sensors=(1, 3), n_readings=(1, 2), depth=2, sensor_depth=2, euler="bounded", allow_positive=False,
                                 cse=draw(st.sampled_from([False, False, True]))))
     width = len(m["control"]) + sum(len(r) for r in m["sensors"].values())
@@ -65,7 +65,8 @@ def snapshot(ad):
 
 
 def same_params(a, b):
-    return a[0] is b[0] and a[1] == b[1] and a[2] == b[2] and a[3] == b[3] and a[4] == b[4] and a[5] == b[5]
+    return (a[0] is b[0] and models.same_values(a[1], b[1]) and a[2] == b[2] and models.same_values(a[3], b[3])
+            and models.same_values(a[4], b[4]) and a[5] == b[5])
 
 
 def by_hand(f, m, X):
